@@ -516,13 +516,13 @@ func (w *tpWorld) runAct(th *tpThread) string {
 		w.mux(a.svc, svc, rec, req)
 		return w.httpTok(rec, th)
 	case "poll":
-		req := httptest.NewRequest("GET", tpLoc+tp.PollPathPrefix+a.secret, nil).WithContext(ctx)
+		req := httptest.NewRequest("GET", tpLoc+tp.PollPathPrefix+a.secret+w.query(), nil).WithContext(ctx)
 		rec := httptest.NewRecorder()
 		w.mux(a.svc, svc, rec, req)
 		return w.httpTok(rec, th)
 	case "uservisit":
 		// (the user page is the application's own URL: it does not live under the service's location path)
-		req := httptest.NewRequest("GET", strings.TrimSuffix(tpLoc, "/auth/v1")+tpUserPfx+a.secret, nil).WithContext(ctx)
+		req := httptest.NewRequest("GET", strings.TrimSuffix(tpLoc, "/auth/v1")+tpUserPfx+a.secret+w.query(), nil).WithContext(ctx)
 		rec := httptest.NewRecorder()
 		w.mux(a.svc, svc, rec, req)
 		return w.httpTok(rec, th)
@@ -544,6 +544,14 @@ func (w *tpWorld) runAct(th *tpThread) string {
 		return hitmiss(err == nil, "ok", "err")
 	}
 	panic("bad action")
+}
+
+// query: the secret is the rest of the PATH; a query string (the return_to parameter the protocol's README lets a
+// client append to the user URL, or any other) is no part of it. The model never sees it.
+func (w *tpWorld) query() string {
+	q := pick(w.r, []string{"", "", "?return_to=https%3A%2F%2Fclient.example%2Fdone", "?", "?x=1&y=/a/b"})
+	w.o.count("query." + map[bool]string{true: "none", false: "present"}[q == ""])
+	return q
 }
 
 func tpNats(ks []int) string {
